@@ -303,6 +303,8 @@ func init() {
 				Bounds: "as above with chunk lists of 0..1 chunks: an empty converter output is stored, replaces older output and survives a reopen"},
 			{Pkg: cv, Func: "ZZ_C15_Cut", Quick: tier(map[string]int{"chunks": 1, "chunklen": 2, "ctypes": 2, "dts": 2}), Bounds: "converter cache cut inside its last record (shared with C15)"},
 			{Pkg: mg, Func: "ZZ_C12_Restart", Quick: &Tier{Params: map[string]int{"realjobs": 1, "gates": 9}, Samples: 10}, Thorough: &Tier{Params: map[string]int{"realjobs": 1, "gates": 9, "payloadmax": 6, "thresholdmax": 12}, Samples: 20}, Bounds: "a service with 3 tags and 2..3 imported captures is shut down or killed at one of 9 job-level gates (settled; tagging job in flight with a later import completed; between an import's body and completion; inside the body with the index cut at 4 positions; merge body between an import's body and completion, killed / shut down later; inside a state save with the new file cut at 4 positions; while the inputs of a finished merge were being deleted; between writing the new state file and removing the old one); the real manager.New starts from the directories left behind, settles, optionally imports one more capture; payload sizes and the data tag's threshold symbolic"},
+			{Pkg: mg, Func: "ZZ_C12_Restart", Desc: "with a mark and a tag referencing it", Quick: &Tier{Params: map[string]int{"realjobs": 1, "gates": 9, "marks": 1}, Samples: 10},
+				Bounds: "the same nine gates with two more acknowledged tags: mark/m (id list) and tag/viam = mark:m"},
 		},
 		Assumptions: []string{"FILE-FORMAT SLICE ONLY: a half-written index, snapshot or cache file is modelled as a prefix of the complete file (cut at a byte) or as the pre-Finalize content; completed system calls persist", "NOT covered: the state file (JSON via reflection), manager.New's directory scan and tag re-convergence after restart, crash points between individual system calls of a running service"},
 		Outside: []string{"restart of the whole service", "state.json", "torn writes / reordering below system-call level"},
